@@ -6,13 +6,14 @@ export CARGO_NET_OFFLINE=true
 demo=$(ls _seed/demo.sh _seed/demo.py 2>/dev/null | head -1)
 [ -z "$demo" ] && { echo "no demo"; ls _seed; exit 2; }
 run_demo() { case "$demo" in *.py) python3 "$demo" "$wt";; *) bash "$demo" "$wt";; esac; }
-git diff -- src > /tmp/confirm_patch.diff
+git add -N -- src 2>/dev/null; git diff -- src > /tmp/confirm_patch.diff; git reset -q -- src   # new files are part of the patch
 [ -s /tmp/confirm_patch.diff ] || { echo "no change applied"; exit 2; }
 cargo build --offline -q 2>&1 | grep -E "^error" | head -3
 python3 /tmp/mut/baseline_check.py "$wt" | tail -2
 run_demo > /tmp/confirm_with.out 2>&1; with=$?
-git stash -q -- src && cargo build --offline -q 2>&1 | grep -E "^error" | head -3
+cp /tmp/confirm_patch.diff "$wt/_seed/.confirm_patch.diff"   # no git stash: the stash list is shared between worktrees
+git checkout -q -- src && git clean -fdq -- src && cargo build --offline -q 2>&1 | grep -E "^error" | head -3
 run_demo > /tmp/confirm_without.out 2>&1; without=$?
-git stash pop -q && cargo build --offline -q 2>&1 | grep -E "^error" | head -3
+git apply "$wt/_seed/.confirm_patch.diff" && cargo build --offline -q 2>&1 | grep -E "^error" | head -3
 echo "demo with change: exit $with ; without: exit $without"
 [ "$with" != 0 ] && [ "$without" = 0 ] && echo CONFIRMED || { echo NOT-CONFIRMED; tail -5 /tmp/confirm_with.out /tmp/confirm_without.out; }
